@@ -388,11 +388,23 @@ pub fn edit_program<R: Rng>(rng: &mut R, p: &mut Program) -> String {
                 what = "added a field";
             } else {
                 let i = rng.gen_range(0..fs.len());
-                match rng.gen_range(0..3) {
+                match rng.gen_range(0..4) {
                     0 => {
                         fs[i].ty = Ty::Prim(Prim::I64);
                         fs[i].compact = false;
                         what = "changed a field type";
+                    }
+                    // same members, other style: named <-> unnamed
+                    3 => {
+                        if *style == Style::Named {
+                            *style = Style::Unnamed;
+                            fs.iter_mut().for_each(|f| f.name = None);
+                            what = "made a named struct a tuple struct";
+                        } else {
+                            *style = Style::Named;
+                            fs.iter_mut().enumerate().for_each(|(k, f)| f.name = Some(format!("m{k}")));
+                            what = "gave the members of a tuple struct names";
+                        }
                     }
                     1 if fs[i].name.is_some() => {
                         fs[i].name = Some("renamed".into());
@@ -414,7 +426,7 @@ pub fn edit_program<R: Rng>(rng: &mut R, p: &mut Program) -> String {
                 what = "added a variant";
             } else {
                 let i = rng.gen_range(0..vs.len());
-                match rng.gen_range(0..6) {
+                match rng.gen_range(0..8) {
                     0 => {
                         vs[i].name = "RenamedVariant".into();
                         what = "renamed a variant";
@@ -439,6 +451,22 @@ pub fn edit_program<R: Rng>(rng: &mut R, p: &mut Program) -> String {
                     5 if vs[i].fields.len() >= 2 => {
                         vs[i].fields.pop();
                         what = "dropped the last member of a variant";
+                    }
+                    6 if !vs[i].fields.is_empty() => {
+                        if vs[i].style == Style::Named {
+                            vs[i].style = Style::Unnamed;
+                            vs[i].fields.iter_mut().for_each(|f| f.name = None);
+                            what = "made the members of a variant unnamed";
+                        } else {
+                            vs[i].style = Style::Named;
+                            vs[i].fields.iter_mut().enumerate().for_each(|(k, f)| f.name = Some(format!("m{k}")));
+                            what = "gave the members of a variant names";
+                        }
+                    }
+                    7 if vs.len() >= 2 => {
+                        // the other version is a strict prefix of this one
+                        vs.pop();
+                        what = "removed the last variant";
                     }
                     1 => {
                         // re-index: swap with an unused index
